@@ -637,6 +637,11 @@ def r7_plurality_veto_shape(ctx):
 
 
 # --------------------------------------------------------------------------------------------- R8
+def _c17_boosted(sub):
+    from rules import c17
+    return c17.r2_boosted(sub)
+
+
 def _c12_wrap(sub):
     from rules import c12
     return c12.r1_filter_polarity(sub)
@@ -657,6 +662,9 @@ def r8_prerequisites(ctx):
              # eliminations and dictator elections remove ONE candidate by name: a name that is not wrapped before the membership
              # tests strikes every candidate whose name it contains, and the next tally raises KeyError out of the constructor
              (_c12_wrap, lambda o: "wrapped into a list" in o.construct),
+             # with as many seats as candidates the last candidate may hold no vote at all: only the "single remaining candidate wins
+             # outright" branch keeps the squares law from dividing by a total weight of 0 (ValueError instead of the m-th winner)
+             (_c17_boosted, lambda o: "single remaining candidate" in o.construct or "squares branch iff" in o.construct),
              (c13.r3_alaska, lambda o: "get_profile" in o.construct or "stage 1" in o.construct or "STV" in o.construct)]
     n = 0
     for fn, keep in picks:
